@@ -68,7 +68,7 @@ package wallet
 
 // new format: nonce(12) ++ Seal(kdf(password), nonce, seed)
 //@ func AesgcmEncrypter [C37]
-//@   opt safety=assumed overflow=assumed bytescat=yes
+//@   opt safety=assumed overflow=assumed bytescat=yes deadreturns=allowed
 //@   assert@call NewCipher: len(arg0) == 32 && bytes(arg0) == kdf(bytes(password))
 //@   assert@call NewGCM: arg0.aeskey == kdf(bytes(password))
 //@   assert@call Seal: arg0.aeskey == kdf(bytes(password)) && isnil(arg1) && isnil(arg4) && len(arg2) == 12 && bytes(arg3) == old(bytes(seed))
@@ -78,7 +78,7 @@ package wallet
 // the new format is tried first (first 12 bytes as nonce); when it does not authenticate, the legacy
 // fixed nonce kdf(password)[:12] over the whole blob
 //@ func AesgcmDecrypter [C37]
-//@   opt safety=assumed overflow=assumed
+//@   opt safety=assumed overflow=assumed deadreturns=allowed
 //@   assert@call NewCipher: len(arg0) == 32 && bytes(arg0) == kdf(old(bytes(password)))
 //@   assert@call NewGCM: arg0.aeskey == kdf(old(bytes(password)))
 //@   assert@call Open: arg0.aeskey == kdf(old(bytes(password))) && isnil(arg1) && isnil(arg4)
